@@ -212,7 +212,12 @@ func (o *expOut) firstError() string {
 		for i := range o.Report.Diagnostics {
 			d := &o.Report.Diagnostics[i]
 			if d.Level() == report.Error || d.Level() == report.ICE {
-				return fmt.Sprintf("[%s] %s", d.Tag(), d.Message())
+				sn := snapDiag(d, false)
+				ann := ""
+				if len(sn.Annotations) > 0 && sn.Annotations[0].Message != "" {
+					ann = " {" + sn.Annotations[0].Message + "}"
+				}
+				return fmt.Sprintf("[%s] %s%s", d.Tag(), d.Message(), ann)
 			}
 		}
 	}
